@@ -273,6 +273,6 @@ LAWS = [
         rule='non-blank triples of scalars: transitivity of < and =, and their mixtures, over all six orientations'),
 ]
 
-LEVEL_TEXT = 'Hypothesis exploration over pairs and triples of every scalar class (all 14 class pairs required to occur), checking the order axioms through parse() and the direction against a reference order written from the statement.'
+LEVEL_TEXT = 'Comparisons re-evaluated in fresh interpreters under time zones with daylight saving; Hypothesis exploration over pairs and triples of every scalar class (all 14 class pairs required to occur), checking the order axioms through parse() and the direction against a reference order written from the statement.'
 LEVEL_NOTE = 'Trusted: hx/ref/order.py. Text direction is only asserted where case-folded and code-point order agree.'
 TECHNIQUE = 'Hypothesis property testing of order axioms (trichotomy, converse, transitivity) + reference order model'
